@@ -2649,6 +2649,7 @@ namespace awkward {
   template <typename T, typename I>
   void
   ForthMachineOf<T, I>::internal_run(bool single_step, int64_t recursion_target_depth_top) { // noexcept
+    bool stepped_out_of_word = false;
     while (recursion_current_depth_ != recursion_target_depth_top) {
       while (bytecodes_pointer_where() < (
                  bytecodes_offsets_[(IndexTypeOf<int64_t>)bytecodes_pointer_which() + 1] -
@@ -3161,10 +3162,8 @@ namespace awkward {
 
               count_instructions_++;
               if (single_step) {
-                if (is_segment_done()) {
-                  bytecodes_pointer_pop();
-                }
-                return;
+                // Leave the word as the non-stepping path does (below), then stop.
+                stepped_out_of_word = true;
               }
 
               // StackOverflow said I could: https://stackoverflow.com/a/1257776/1623645
@@ -3792,6 +3791,21 @@ namespace awkward {
         if (single_step) {
           if (is_segment_done()) {
             bytecodes_pointer_pop();
+
+            if (do_current_depth_ != 0  &&
+                do_abs_recursion_depth() == recursion_current_depth_) {
+              // End one step of a 'do ... loop' or a 'do ... +loop'.
+              if (do_loop_is_step()) {
+                if (stack_cannot_pop()) {
+                  current_error_ = util::ForthError::stack_underflow;
+                  return;
+                }
+                do_i() += stack_pop();
+              }
+              else {
+                do_i()++;
+              }
+            }
           }
           return;
         }
@@ -3814,6 +3828,10 @@ namespace awkward {
         else {
           do_i()++;
         }
+      }
+
+      if (stepped_out_of_word) {
+        return;
       }
 
     } // end of all segments
